@@ -266,7 +266,12 @@ class _EvaluatorCompiler:
             elif left_val is None or right_val is None:
                 return None
 
-            return operator(eval_left(obj), eval_right(obj))
+            try:
+                return operator(left_val, right_val)
+            except ZeroDivisionError:
+                # division / modulo by zero: NULL on the backends that
+                # evaluate it at all (the others fail the statement)
+                return None
 
         return evaluate
 
